@@ -67,3 +67,10 @@ META["C16"] = {
              "findings about a symlinked source path are excluded by variant and replayed."),
     "note": "Schedules are sampled, not enumerated; a race report counts only with a go-slug frame.",
 }
+META["C19"] = {
+    "technique": "rapid PBT + native fuzzing with a 'returns a value or an error' oracle; hazardous Pack cases in watched worker subprocesses (panic/crash/hang detection)",
+    "text": ("All entry points are driven with grammar-generated, mutated and coverage-guided inputs; the only oracle is that the call returns. "
+             "Pack and bundle builds on trees with link cycles, special files and degenerate rule files run in a watched subprocess so that "
+             "stack exhaustion and blocking are observed rather than killing the check."),
+    "note": "Hang detection uses a 12s silence threshold (normal cases take milliseconds) and requires a go-slug frame in the dump; otherwise inconclusive (exit 2).",
+}
